@@ -141,6 +141,10 @@ func (dm *DagModifier) expandSparse(size int64) error {
 	if err != nil {
 		return err
 	}
+	// Ensure the grown root doesn't exceed identity hash limits
+	if pn, ok := nnode.(*mdag.ProtoNode); ok {
+		dm.ensureSafeProtoNodeHash(pn)
+	}
 	err = dm.dagserv.Add(dm.ctx, nnode)
 	if err != nil {
 		return err
@@ -820,6 +824,9 @@ func (dm *DagModifier) Truncate(size int64) error {
 	if err != nil {
 		return err
 	}
+	if pn, ok := nnode.(*mdag.ProtoNode); ok {
+		dm.ensureSafeProtoNodeHash(pn)
+	}
 
 	err = dm.dagserv.Add(dm.ctx, nnode)
 	if err != nil {
@@ -903,6 +910,9 @@ func (dm *DagModifier) dagTruncate(ctx context.Context, n ipld.Node, size uint64
 		ndata.AddBlockSize(childsize)
 	}
 
+	if pn, ok := modified.(*mdag.ProtoNode); ok {
+		dm.ensureSafeProtoNodeHash(pn)
+	}
 	err = dm.dagserv.Add(ctx, modified)
 	if err != nil {
 		return nil, err
